@@ -47,13 +47,6 @@ def parseDpv (s : String) : DPV :=
   | "ContextJ" => .contextJ | "ContextO" => .contextO | "Disallowed" => .disallowed
   | _ => .unassigned
 
-def parseUsize (s : String) : Nat :=
-  match s with
-  | "max" => usizeMax
-  | "max-1" => usizeMax - 1
-  | "half" => 2 ^ 63
-  | _ => s.toNat!
-
 def ruleByName (n : String) : Option RuleId :=
   match n with
   | "zwnj" => some .zwnj | "zwj" => some .zwj | "middledot" => some .middleDot
@@ -201,6 +194,38 @@ def evalFn (name : String) (cp : Nat) : Option String :=
   | "std_upper" => if sc then some (bS (isUppercase cp)) else none
   | "std_lower" => if sc then some (bS (isLowercase cp)) else none
   | "std_tolower" => if sc then some (let m := toLower cp; if m == [cp] then "id" else fmtStr m) else none
+  -- specification-side functions (independent UCD / IANA data), same value syntax
+  | "spec_cls_id" => some (Spec.dp63 true cp).name
+  | "spec_cls_ff" => some (Spec.dp63 false cp).name
+  | "spec_cls_id_char" => if sc then some (Spec.dp63 true cp).name else none
+  | "spec_cls_ff_char" => if sc then some (Spec.dp63 false cp).name else none
+  | "spec_ctxrule" => some (match Spec.ruleFor cp with | some r => r.name | none => "none")
+  | "spec_bidi" => some (reprStr (Spec.bidi16 cp) |>.replace "Precis.BidiClass." "")
+  | "spec_widthmap" => some (match Step.eval none Gen.Ucd16.widthStep cp with | none => "none" | some d => hex4 d)
+  | "spec_zs" => if sc then some (bS (Spec.zs16 cp)) else none
+  | "spec_nonascii_zs" => if sc then some (bS (Spec.zs16 cp && cp != 0x20)) else none
+  | "spec_is_virama" => some (bS (Spec.virama63 cp))
+  | "spec_is_greek" => some (bS (Spec.script63 cp == .greek))
+  | "spec_is_hebrew" => some (bS (Spec.script63 cp == .hebrew))
+  | "spec_is_hiragana" => some (bS (Spec.script63 cp == .hiragana))
+  | "spec_is_katakana" => some (bS (Spec.script63 cp == .katakana))
+  | "spec_is_han" => some (bS (Spec.script63 cp == .han))
+  | "spec_is_dual_joining" => some (bS (Spec.jt63 cp == .D))
+  | "spec_is_left_joining" => some (bS (Spec.jt63 cp == .L))
+  | "spec_is_right_joining" => some (bS (Spec.jt63 cp == .R))
+  | "spec_is_transparent" => some (bS (Spec.jt63 cp == .T))
+  | "spec_is_space" => some (bS (Spec.gc63 cp == .Zs))
+  | "spec_is_control" => some (bS (Spec.gc63 cp == .Cc))
+  | "spec_is_letter_digit" => some (bS (Spec.isLetterDigitGc (Spec.gc63 cp)))
+  | "spec_is_other_letter_digit" => some (bS (Spec.isOtherLetterDigitGc (Spec.gc63 cp)))
+  | "spec_is_symbol" => some (bS (Spec.isSymbolGc (Spec.gc63 cp)))
+  | "spec_is_punctuation" => some (bS (Spec.isPunctuationGc (Spec.gc63 cp)))
+  | "spec_is_join_control" => some (bS (Spec.joinControl63 cp))
+  | "spec_is_old_hangul_jamo" => some (bS (Spec.isOldHangulJamoHst (Spec.hst63 cp)))
+  | "spec_is_unassigned" => some (bS (Spec.gc63 cp == .Cn && !Spec.nonchar63 cp && cp < 0x110000))
+  | "spec_is_ascii7" => some (bS (0x21 ≤ cp && cp ≤ 0x7E))
+  | "spec_is_precis_ignorable_property" => some (bS (Spec.defaultIgnorable63 cp || Spec.nonchar63 cp))
+  | "spec_exception" => some (optDpv (Spec.exceptions cp))
   | _ => none
 
 def hexU (n : Nat) : String := String.ofList ((Nat.toDigits 16 n).map Char.toUpper)
